@@ -11,7 +11,7 @@
    the checker history_ok, which is proved here never to raise a false alarm. *)
 Require Import List NArith Sorting.Sorted String.
 Import ListNotations.
-From FoxTxn Require Import Protocol ProtocolProofs HistoryProofs ProtoSem GenSync Skeleton.
+From FoxTxn Require Import Protocol ProtocolProofs HistoryProofs SingleLoadProofs ProtoSem GenSync Skeleton.
 
 (* At most one thread is between Lock and Unlock, and then mu is held. *)
 Theorem mutual_exclusion :
@@ -95,6 +95,22 @@ Theorem history_ok_rejects_stale_reads :
 Proof. exact history_ok_sound_realtime_thm. Qed.
 Print Assumptions history_ok_rejects_stale_reads.
 
+(* One operation, one tree: a read performs ONE Load (a committed write ONE Store), so however many of its entry
+   points report the version of an object, they report the same one.  The executable check single_load_ok accepts the
+   history of every execution (no false alarm) ... *)
+Theorem single_load_complete :
+  forall (P : psem) s0 n tr (c : Cfg P), Exec P s0 n tr c -> single_load_ok (Hist P tr) = true.
+Proof. exact (fun P => single_load_complete_thm (pSt P) (pwop P) (pwout P) (prop_ P) (prout P) (pwapply P) (prread P)). Qed.
+Print Assumptions single_load_complete.
+
+(* ... and in what it accepts no returned result shows two versions of one object (a read transaction one of whose
+   entry points loaded the tree again, across a commit, is rejected). *)
+Theorem single_load_rejects_second_load :
+  forall (wout rout : Type) (h : list (hev wout rout)), single_load_ok h = true ->
+    forall t r o v v', In (HRet t r) h -> In (o, v) (res_versions r) -> In (o, v') (res_versions r) -> v = v'.
+Proof. exact single_load_sound_thm. Qed.
+Print Assumptions single_load_rejects_second_load.
+
 (* ---------- non-vacuity: a concrete execution (ProtocolExamples.v) and concrete rejected histories ---------- *)
 From FoxTxn Require Import ProtocolExamples HistCorr.
 
@@ -114,6 +130,12 @@ Proof. exact ex_history. Qed.
 Example checker_verdicts_on_concrete_histories :
   map history_ok [h_lost_update; h_phantom; h_stale_read; h_non_monotone; h_good] = [false; false; false; false; true].
 Proof. exact eq_refl. Qed.
+
+Example single_load_verdicts_on_concrete_histories :
+  map history_ok [h_two_loads; h_one_load] = [true; true] /\
+  map single_load_ok [h_two_loads; h_one_load] = [false; true] /\
+  single_load_ok (hist _ _ _ _ tr_ex) = true.
+Proof. exact (conj eq_refl (conj eq_refl eq_refl)). Qed.
 
 (* ---------- tie A: the Go sources, as they are now, perform the protocol's events in the protocol's order ---------- *)
 Open Scope string_scope.
